@@ -66,6 +66,7 @@ func scenarioC17(r *Run) {
 	conns := make([]*LConn, 1+nbg)
 	thinks := 0
 	bgCloses := 0
+	heavy := 0
 	for i := range conns {
 		lc := &LConn{I: i, TIdx: 0, Lsn: cfg.Listeners[0], Mode: "active"}
 		if i == 0 {
@@ -88,7 +89,15 @@ func scenarioC17(r *Run) {
 		} else {
 			na, nt := 1+c.Pick(2000, "bg-app"), 1+c.Pick(2000, "bg-tgt")
 			lc.PlanA, lc.PlanT = Partition(c, na, "bg-part"), Partition(c, nt, "bg-part")
-			if !crowd && c.Chance(1, 2, "bg-idle") {
+			if !crowd && !CarrierIsKCP(carrier) && !CarrierIsDNS(carrier) && heavy < 2 && c.Chance(1, 4, "bg-heavy-paused-reader") {
+				// a neighbour whose application does not read while its target sends 0.3-1.3 MiB (within the
+				// multiplexer's receive budget of 4 MiB): the test connection's data and end-of-stream are owed
+				// all the same
+				nt = 300*1024 + c.Pick(1024*1024, "bg-heavy-bytes")
+				lc.PlanT = Partition(c, nt, "bg-part")
+				lc.Mode = "paused-app"
+				heavy++
+			} else if !crowd && c.Chance(1, 2, "bg-idle") {
 				lc.Mode = "idle"
 			} else if crowd || c.Chance(1, 2, "bg-closes") {
 				// a neighbour on the same listener finishes in an orderly way at a moment the driver chooses,
@@ -118,6 +127,10 @@ func scenarioC17(r *Run) {
 	}
 	r.Info["open_order"] = fmt.Sprint(cs.Order)
 	r.Info["background_closing"] = bgCloses
+	r.Info["background_heavy_paused_readers"] = heavy
+	if heavy > 0 {
+		r.Count("runs_with_a_heavy_paused_neighbour")
+	}
 	if bgCloses > 0 {
 		r.Count("runs_with_closing_neighbour")
 	}
